@@ -246,6 +246,11 @@ def gen(tier: str, seed: int) -> list[Case]:
         "google": 'Donor.\n\n    Args:\n        value (int): V.\n        factor (float): F.\n\n    Returns:\n        float: R.\n    ',
         "rest": 'Donor.\n\n    :param value: V.\n    :type value: int\n    :param factor: F.\n    :type factor: float\n    :returns: R.\n    :rtype: float\n    ',
     }
+    bare_docs = {
+        "numpydoc": 'Bare.\n\n    Parameters\n    ----------\n    items : set\n        I.\n    pairs : tuple\n        P.\n    plain : int\n        Q.\n    ',
+        "google": 'Bare.\n\n    Args:\n        items (set): I.\n        pairs (tuple): P.\n        plain (int): Q.\n    ',
+        "rest": 'Bare.\n\n    :param items: I.\n    :type items: set\n    :param pairs: P.\n    :type pairs: tuple\n    :param plain: Q.\n    :type plain: int\n    ',
+    }
     bare = "def rescale(value, factor):\n    ...\n\n\ndef shift(value, factor=2):\n    ...\n\n\nclass Legacy:\n    def scale(self, value, factor):\n        ...\n"
     bare_gt = {"rescale": {"param-untyped", "result-missing"}, "shift": {"param-untyped", "result-missing"}, "Legacy": set(), "Legacy/scale": {"param-untyped", "result-missing"}}
     for style, doc in docs.items():
@@ -257,8 +262,11 @@ def gen(tier: str, seed: int) -> list[Case]:
             "src/pk/legacy/__init__.py": "",
             "src/pk/legacy/b_legacy.py": {"hex": (b"\xef\xbb\xbf" + bare.encode()).hex()},
             "src/pk/z_last.py": bare,
+            # container types without arguments that only the docstring gives (each parameter alone in its function)
+            "src/pk/bare_types.py": f'def only_set(items):\n    """{bare_docs[style]}"""\n    ...\n\n\ndef only_tuple(pairs):\n    """{bare_docs[style]}"""\n    ...\n\n\ndef only_plain(plain):\n    """{bare_docs[style]}"""\n    ...\n',
         }
-        gts = {"pk.a_documented": dict(bare_gt), "pk.b_legacy_root": dict(bare_gt), "pk.legacy.b_legacy": dict(bare_gt), "pk.z_last": dict(bare_gt)}
+        gts = {"pk.a_documented": dict(bare_gt), "pk.b_legacy_root": dict(bare_gt), "pk.legacy.b_legacy": dict(bare_gt), "pk.z_last": dict(bare_gt),
+               "pk.bare_types": {"only_set": {"set", "result-missing"}, "only_tuple": {"tuple", "result-missing"}, "only_plain": {"result-missing"}}}
         for nc in (False, True):
             cases.append(Case(cid=f"c20-doc-{style}-{int(nc)}", files=files, opts=["--docstyle", style] + (["-nc"] if nc else []), meta={"gt": gts}, reach=REACH))
     # packages without ground truth (every declaration form of C01's library): no marker may be left before a closing
